@@ -207,6 +207,37 @@ def gen_stopping_middle():
     return out
 
 
+def gen_exit_during_pre_start():
+    """spawn_linked / spawn_linked_instant whose supervisor exits (each cause; directly or because an
+    ancestor exits) while the child is still parked inside pre_start; then pre_start completes"""
+    out = []
+    for cause in CAUSES:
+        for kind in (1, 3):
+            for parked in (False, True):
+                for via in ("self", "ancestor"):
+                    if parked and cause not in ("stop", "drain"):
+                        continue
+                    bld = Builder(5)
+                    top = bld.spawn(None, kind=0, ps=(parked and via == "ancestor"))
+                    p = top if via == "self" else bld.spawn(top, kind=1)
+                    if via == "self" and parked:
+                        bld = Builder(5)
+                        p = top = bld.spawn(None, kind=0, ps=True)
+                    sib = bld.spawn(p, kind=1)
+                    c = bld.spawn(p, kind=kind, pre=True)
+                    do_exit(bld, top, cause)
+                    if parked:
+                        # the supervisor is still Stopping inside post_stop when pre_start completes
+                        bld.emit("open", c, "pre")
+                        bld.emit("open", top, "ps")
+                    else:
+                        bld.emit("open", c, "pre")
+                    bld.emit("send", c, "blk")
+                    bld.emit("flush")
+                    out.append(bld.scenario(f"prestart:{cause}:{kind}:{via}:{'parked' if parked else 'gone'}"))
+    return out
+
+
 def gen_random(rng, count):
     out = []
     for _ in range(count):
@@ -330,6 +361,11 @@ def canon(term):
     return snaps, ress[:-1]
 
 
+def is_panic(term):
+    return (len(term) == 1 and isinstance(term[0], tuple) and len(term[0]) > 1
+            and isinstance(term[0][1], tuple) and term[0][1][0] == "HarnessPanic")
+
+
 def snaps_term(snaps):
     return show_term(snaps)
 
@@ -388,7 +424,7 @@ def run(chk):
                 s["tag"] = "replay"
                 scns.append(s)
     else:
-        scns = load_corpus() + gen_systematic() + gen_stopping_middle()
+        scns = load_corpus() + gen_systematic() + gen_stopping_middle() + gen_exit_during_pre_start()
         scns += gen_targeted(chk.rng, (250 if quick else 3000) * factor)
         scns += gen_random(chk.rng, (250 if quick else 3000) * factor)
 
@@ -398,13 +434,24 @@ def run(chk):
 
     exprs = [f"model_run rule_fixed {s['n']}%nat {scn_term(s)}" for s in scns]
     for s, it in zip(scns, impl_t):
-        exprs.append(f"check_C05 {snaps_term([p[1] for p in it])}")
+        if is_panic(it):
+            exprs.append("true")
+            continue
+        reqs = "[" + "; ".join(f"({o[1]}, {o[3]})" for o in s["ops"] if o[0] == "spawn" and o[3] is not None) + "]"
+        exprs.append(f"check_C05_full {reqs} {show_term(it)}")
     vals = coq_eval("C05", IMPORTS, exprs)
     N = len(scns)
     distinct = set()
     for i, s in enumerate(scns):
         mt = parse_term(vals[i])
         oracle = vals[N + i].strip()
+        if is_panic(impl_t[i]):
+            chk.coverage["evaluations"] += 1
+            chk.violation("the harness panicked while driving this scenario",
+                          "correspondence E1:eng_tree could not drive the scenario (harness panic, no observation)\n"
+                          f"scenario: {scn_line(s)}\nscenario-json: {json.dumps({'n': s['n'], 'ops': s['ops']})}\n"
+                          f"impl : {impl[i]}\n", failing_input=False)
+            continue
         mv, iv = canon(mt), canon(impl_t[i])
         chk.coverage["evaluations"] += 1
         chk.count("scenarios." + s["tag"].split(":")[0])
@@ -421,7 +468,7 @@ def run(chk):
                 f"tag: {s['tag']}\n"
                 f"impl : {impl[i]}\nmodel: {vals[i]}\n")
         if oracle != "true":
-            why = explain(iv[0])
+            why = explain(iv[0], s, impl_t[i])
             chk.violation("check_C05 rejects the implementation's snapshots: " + why,
                           "C05 oracle check_C05 rejects the implementation's quiescent snapshots\n"
                           + why + "\n" + desc
@@ -444,8 +491,21 @@ def run(chk):
     return chk.finish(trusted_base=TRUSTED)
 
 
-def explain(snaps):
-    """human-readable reason, mirroring check_C05 (the verdict itself is Coq's)"""
+def explain(snaps, s=None, raw=None):
+    """human-readable reason, mirroring check_C05_full (the verdict itself is Coq's)"""
+    if s is not None and raw is not None:
+        prev = None
+        for k, pair in enumerate(raw):
+            sn, res = pair[1], pair[2]
+            for o in s["ops"]:
+                if o[0] == "spawn" and o[3] is not None:
+                    c, p = o[1], o[3]
+                    ok = res[c] == ("Some", "true")
+                    was = prev is not None and prev[c] == ("Some", "true")
+                    if ok and not was and sn[c][3] != ("Some", p) and sn[c][1] != 6:
+                        return (f"snapshot {k}: spawn_linked of actor {c} under {p} returned Ok but actor {c} is alive "
+                                f"(status rank {sn[c][1]}) with supervisor {sn[c][3]}: an orphan")
+            prev = res
     for k, sn in enumerate(snaps):
         for a, x in enumerate(sn):
             _, r, kids, sup = x
